@@ -147,12 +147,20 @@ func exec(c Case) (vh.Outcome, error) {
 	codesWaited := map[int]bool{}
 	nonMatchingBeforeMatching := false
 
+	var pending *waiter // the waiter whose registration is being awaited
 	waitCount := func(code, want int) error {
 		deadline := time.Now().Add(watchdog)
 		for {
 			cs, _ := waiterCounts(srv)
 			if cs[code] == want {
 				return nil
+			}
+			if pending != nil {
+				select {
+				case werr := <-pending.done:
+					return fmt.Errorf("the wait on code %d returned (%v) although no request with that code was received since it started", code, werr)
+				default:
+				}
 			}
 			if time.Now().After(deadline) {
 				return fmt.Errorf("waiter count of code %d is %d, expected %d", code, cs[code], want)
@@ -248,11 +256,29 @@ func exec(c Case) (vh.Outcome, error) {
 				continue
 			}
 			codesWaited[st.Code] = true
+			pending = w
 			if st.Kind == "waitClient" {
 				// its arrival releases the waiters on 35 first; then it registers on its own code
 				want := before[st.Code] + 1
 				if st.Code == 35 {
 					want = 1
+					// the count of code 35 passes through 0 between the release of the old waiters and the
+					// registration of this one: first see the old waiters return (that is the broadcast),
+					// only then look for the new registration
+					mu.Lock()
+					old := active[35]
+					delete(active, 35)
+					mu.Unlock()
+					for _, r := range old {
+						select {
+						case werr := <-r.done:
+							if werr != nil {
+								return out, vh.Errf("%s: waiter %d on code 35 returned an error: %v", where, r.id, werr)
+							}
+						case <-time.After(watchdog):
+							return out, vh.Errf("%s: waiter %d on code 35 was not woken by the arriving wait request: lost wake-up", where, r.id)
+						}
+					}
 				}
 				if werr := waitCount(st.Code, want); werr != nil {
 					return out, vh.Errf("%s: the waiting client never registered: %v", where, werr)
@@ -300,6 +326,7 @@ func exec(c Case) (vh.Outcome, error) {
 				mu.Unlock()
 			}
 		case "request":
+			pending = nil
 			mu.Lock()
 			if len(active) > 0 && len(active[st.Code]) == 0 {
 				nonMatchingBeforeMatching = true
@@ -364,6 +391,17 @@ func exec(c Case) (vh.Outcome, error) {
 			nw++
 		}
 	}
+	lockedWait, locked := false, false
+	for _, st := range c.Steps {
+		if st.Kind == "request" && (st.Code == 22 || st.Code == 23) {
+			locked = st.Code == 22
+		} else if st.Kind != "request" && locked && st.Code < tableSize {
+			lockedWait = true
+		}
+	}
+	if lockedWait {
+		out.Classes = append(out.Classes, "wait-started-while-agent-locked")
+	}
 	out.NonTrivial = nw >= 2 && nonMatchingBeforeMatching
 	if len(codesWaited) >= 2 {
 		out.Classes = append(out.Classes, "waiters-on-2+-codes")
@@ -377,6 +415,10 @@ func gen(t *rapid.T) Case {
 	codes := rapid.SliceOfN(rapid.OneOf(rapid.SampledFrom([]int{0, 11, 13, 19, 31, 32, 35, 35, 39, 39, 40, 41, 255}), rapid.IntRange(0, 39), rapid.IntRange(0, 39), rapid.IntRange(0, 255)), 2, 4).Draw(t, "codes")
 	n := rapid.IntRange(1, 14).Draw(t, "nsteps")
 	waiters := 0
+	if rapid.IntRange(0, 3).Draw(t, "lockFirst") == 0 {
+		// the agent is locked (well-formed lock request) before anybody waits
+		c.Steps = append(c.Steps, Step{Kind: "request", Code: 22})
+	}
 	for i := 0; i < n; i++ {
 		l := fmt.Sprintf("s%d", i)
 		k := rapid.SampledFrom([]string{"waitDirect", "waitDirect", "waitClient", "request", "request", "request"}).Draw(t, l+"K")
@@ -389,17 +431,14 @@ func gen(t *rapid.T) Case {
 			}
 		}
 		if k == "request" && rapid.IntRange(0, 3).Draw(t, l+"Other") == 0 {
-			code = rapid.OneOf(rapid.SampledFrom([]int{1, 11, 12, 18, 23, 33, 34, 36, 38, 40, 100}), rapid.IntRange(0, 255)).Draw(t, l+"OC")
-		}
-		if code == 22 {
-			code = 23
+			code = rapid.OneOf(rapid.SampledFrom([]int{1, 11, 12, 18, 22, 22, 23, 33, 34, 36, 38, 40, 100}), rapid.IntRange(0, 255)).Draw(t, l+"OC")
 		}
 		c.Steps = append(c.Steps, Step{Kind: k, Code: code})
 	}
 	return c
 }
 
-const rule = "harness-owned schedules over one real NewServer(remote=true): 1..14 steps {start a waiter on code c directly, start a waiter through its own client connection (which is itself a request with code 35), send a request whose first byte is c' on another connection and read its response}, up to 8 waiters on 1..4 codes drawn from 0..255 with weight on 0, 11, 13, 19, 31, 32, 35, 39, 40, 41, 255, requests also with unrelated codes. The executor advances only on observed states: a waiter counts as registered when the waiter count of its code's condition variable (read with reflect) reached the expected value; a request is done when its response was read. Oracle after every request with code c': registered waiters of c' = 0 and exactly those waiters return (a released waiter that does not return within 15 s is a lost wake-up), waiter counts of every other code unchanged and none of their waiters returned; codes >= 40 return immediately; all remaining waiters are woken by matching requests at the end; the race detector is an additional oracle. Non-trivial: >= 2 blocking waiters and a non-matching request while somebody waits (class waiters-on-2+-codes counts the schedules with several codes)."
+const rule = "harness-owned schedules over one real NewServer(remote=true): 1..14 steps {start a waiter on code c directly, start a waiter through its own client connection (which is itself a request with code 35), send a request whose first byte is c' on another connection and read its response}, up to 8 waiters on 1..4 codes drawn from 0..255 with weight on 0, 11, 13, 19, 31, 32, 35, 39, 40, 41, 255, requests also with unrelated codes, among them well-formed lock (22) and unlock (23) requests, and a quarter of the schedules lock the agent first (class wait-started-while-agent-locked): whether the agent is locked is not part of when a waiter is released. The executor advances only on observed states: a waiter counts as registered when the waiter count of its code's condition variable (read with reflect) reached the expected value; a request is done when its response was read. Oracle after every request with code c': registered waiters of c' = 0 and exactly those waiters return (a released waiter that does not return within 15 s is a lost wake-up), waiter counts of every other code unchanged and none of their waiters returned; codes >= 40 return immediately; all remaining waiters are woken by matching requests at the end; the race detector is an additional oracle. Non-trivial: >= 2 blocking waiters and a non-matching request while somebody waits (class waiters-on-2+-codes counts the schedules with several codes)."
 
 func TestC20Wait(t *testing.T) {
 	vh.Run(t, vh.Spec[Case]{Property: "C20", Name: "TestC20Wait", Rule: rule, Gen: gen, Exec: exec, Journal: true})
